@@ -35,12 +35,15 @@ impl WaitSlot {
 
     pub(super) fn notify(&self) {
         #[cfg(grevm_verif)]
-        crate::verif::p2(
-            "ws_notify",
-            self as *const Self as usize as i64,
-            self.thread.get().is_some() as i64,
-        );
+        crate::verif::p0("ws_notify_enter");
+        #[cfg(grevm_verif)]
+        if self.thread.get().is_none() {
+            // same atomic group as the read below (a note does not yield)
+            crate::verif::n2("ws_notify", self as *const Self as usize as i64, 0);
+        }
         if let Some(thread) = self.thread.get() {
+            #[cfg(grevm_verif)]
+            crate::verif::p2("ws_notify", self as *const Self as usize as i64, 1);
             #[cfg(grevm_verif)]
             crate::verif::unpark(thread);
             thread.unpark();
